@@ -44,7 +44,8 @@ R(st, o, v) == [st |-> st, o |-> o, v |-> v]
 Norm(st, v) == R(st, "norm", v)
 Thr(st, e)  == R(st, "thr", e)
 
-FalsyStr == {"", "0", "false", "0.0", "f", "F", "FALSE", "False"}
+FalsyStr == {"", "0", "false", "0.0", "f", "F", "FALSE", "False",
+             "-0", "+0", "00", "0.00", ".0", "0.", "-0.0", "+0.0", "0e0", "0E5", "-.0"}      \* a string that is a numeral denoting zero is falsy like the number zero, however the zero is written
 ZeroFlt  == {"0", "-0"}                    \* canonical (%g) spellings of zero
 Truthy(v) ==
   CASE v.t = "nil"  -> FALSE
